@@ -1,6 +1,6 @@
 (* Property C10, Container / Document half — statements only.  Each is closed by [exact] of a lemma proved elsewhere. *)
 From Coq Require Import List ZArith Bool. Import ListNotations.
-Require Import Package Pkgproof PkgStepWF PkgStepWF4 PkgCloneproof PkgPairproof PkgHistproof PkgInstproof.
+Require Import Package Pkgproof PkgStepWF PkgStepWF4 PkgCloneproof PkgPairproof PkgHistproof PkgLocalproof PkgLocalproof2 PkgLocalproof3 PkgInstproof.
 Open Scope Z_scope.
 
 (* C10_lazy_parts: a clone has no path, and the part map of a path-less document does not depend on the file system:
@@ -186,6 +186,35 @@ Theorem C10_original_ops_leave_clone :
            view xml bytes kid par mask fs d2 n).
 Proof. exact original_ops_leave_clone. Qed.
 Print Assumptions C10_original_ops_leave_clone.
+
+(* C10_doc_independent "in any interleaving": from a pair (original, clone) — the clone has no path — after ANY interleaved history
+   (no re-open; the clone is not saved onto the file the original was opened from) the original and the clone are exactly
+   the documents each would be after its own operations alone *)
+Theorem C10_doc_independent_interleaving :
+  forall (xml bytes kid : Type) (ser : xml -> bytes)
+           (par : bytes -> xml) (pretty stamp : xml -> xml)
+           (entries : xml -> mentries) (with_entries : mentries -> xml -> xml)
+           (kids : xml -> list kid) (mime : bytes -> mtype)
+           (mime_bytes : mtype -> bytes) (rdf0 : bytes)
+           (h : list (side * op xml bytes)) (fs : fsys bytes kid)
+           (d1 d2 : document xml bytes),
+         P xml bytes d2 = None ->
+         List.Forall (fair xml bytes (P xml bytes d1)) h ->
+         let
+         '(_, d1F, d2F) :=
+          prun xml bytes kid ser par pretty stamp entries with_entries kids
+            mime mime_bytes rdf0 (fs, d1, d2) h in
+          d1F =
+          snd
+            (run xml bytes kid ser par pretty stamp entries with_entries kids
+               mime mime_bytes rdf0 FIXED (fs, d1)
+               (ops_of xml bytes OnOriginal h)) /\
+          d2F =
+          snd
+            (run xml bytes kid ser par pretty stamp entries with_entries kids
+               mime mime_bytes rdf0 FIXED (fs, d2) (ops_of xml bytes OnClone h)).
+Proof. exact interleaving_commutes. Qed.
+Print Assumptions C10_doc_independent_interleaving.
 
 Example C10_example : FsOK cbytes Z ex_fs /\ WFd cxml cbytes Z ex_fs ex_doc /\ (forall x, cpar (cser x) = x).
 Proof. exact (conj ex_fs_ok (conj ex_doc_wf cpar_cser)). Qed.
